@@ -450,3 +450,33 @@ Definition legacy_udp_pkt_payload_poke (arg val : N) (v : bytes) : res bytes :=
 (* ScmpPayloadView::message_mut() -> Unknown(u) -> u.set_message_type(val) *)
 Definition legacy_scmp_unknown_set_type (val : N) (v : bytes) : res bytes :=
   wr v ScmpUnknownMessage_TYPE_RNG val.
+
+(** * Constructor families of [View] (core/view.rs defaults; no view type overrides them) and the
+    owned packet conversions, in the observation format of the harness: (1, numbers) | (0, error)
+    | (99, []) *)
+Definition AT_BUF := 13.     (* copy_to_slice: BufferTooSmall { at: "buf" } *)
+Definition enc_err (e : verr) : N * list N :=
+  match e with BufTooSmall a r c => (0, [1; a; r; c]) | VOther c => (0, [2; c]) end.
+Definition enc_ctor {A} (r : res A) (f : A -> N * list N) : N * list N :=
+  match r with Ok x => f x | Err e => enc_err e | Panic _ => (99, []) end.
+Definition owned_lens (v : bytes) : N * list N := (1, [blen v; blen v]).
+(* Box<ScionRawPacketView>::try_into_udp / try_into_scmp = the check of try_as_udp / try_as_scmp
+   (accessors 4 / 5), then try_from_boxed of the same bytes *)
+Definition into_typed (acc_id : N) (v : bytes) : N * list N :=
+  match acc_pkt KRaw acc_id 0 v with
+  | Ok (VL [1; l]) => (1, [l; l])
+  | Ok (VL (0 :: e)) => (0, e)
+  | _ => (99, [])
+  end.
+Definition run_ctor (k : vkind) (fam arg : N) (b : bytes) : N * list N :=
+  match fam with
+  | 0 | 1 => enc_ctor (try_from_slice k b) (fun vr => (1, [blen (fst vr); blen (snd vr); 0; blen (fst vr)]))
+  | 2 | 7 => enc_ctor (try_from_boxed k b) owned_lens
+  | 3 => enc_ctor (try_from_slice k b) (fun vr => owned_lens (fst vr))
+  | 4 => enc_ctor (try_from_slice k b) (fun vr =>
+           let n := blen (fst vr) in
+           if arg <? n then (0, [1; AT_BUF; n; arg]) else (1, [n; arg - n; 1]))
+  | 5 => enc_ctor (try_from_boxed KRaw b) (into_typed 4)
+  | 6 => enc_ctor (try_from_boxed KRaw b) (into_typed 5)
+  | _ => (99, [])
+  end.
